@@ -33,6 +33,7 @@ type hGraph struct {
 	unknown map[int]bool // LoadTarget fails for these
 	fails   map[int]bool // Evaluate fails for these
 	split   bool         // Evaluate asks for its dependencies in several EvaluateTargets calls
+	dup     bool         // one EvaluateTargets call may name a dependency twice (adjacent and non-adjacent repeats)
 	spin    int          // busy work inside Evaluate (to make targets overlap)
 	desc    string
 	seq     int // case sequence number, part of every label so that late hook events are attributed correctly
@@ -195,6 +196,7 @@ func buildRandom(g *hGraph, kind string, r *rand.Rand) {
 			}
 		}
 		g.split = r.IntN(3) == 0
+		g.dup = g.n%3 == 1 // derived, not drawn: keeps the PRNG stream of earlier harness versions
 	case "chain":
 		g.n = 2 + r.IntN(40)
 		g.adj = make([][]int, g.n)
@@ -400,6 +402,20 @@ func (t *hTarget) Evaluate(engine runner.Engine) (err error) {
 	}
 	var failed error
 	for _, grp := range groups {
+		if g.dup && len(grp) > 0 {
+			// every slot of a repeated label must carry that dependency's actual outcome
+			rep := make([]int, 0, 2*len(grp)+1)
+			for _, d := range grp {
+				rep = append(rep, d)
+				if s.rnd(3) == 0 {
+					rep = append(rep, d)
+				}
+			}
+			if s.rnd(2) == 0 {
+				rep = append(rep, grp[0])
+			}
+			grp = rep
+		}
 		labels := make([]string, len(grp))
 		for k, d := range grp {
 			labels[k] = g.label(d)
@@ -688,7 +704,7 @@ func runRunner(c *core.Ctx, which string) {
 	limits := []int{1, 2, 3, 4, 8, 16}
 	switch which {
 	case "C04":
-		c.SetRule("generated acyclic graphs (layered meshes with shared subgraphs, chains, fans, failing and unknown targets, dependency requests split over several calls), 5-60 nodes, " +
+		c.SetRule("generated acyclic graphs (layered meshes with shared subgraphs, chains, fans, failing and unknown targets, dependency requests split over several calls, one call naming a dependency more than once), 5-60 nodes, " +
 			"x limits {1,2,3,4,8,16} (CPU affinity) x PRNG schedules (yields at the runner's suspension points and at the harness boundary), plain and -race builds; " +
 			"oracle = assertions in the harness Targets/Target at the client boundary (load/evaluate counts, dependency finished before the dependent continues, outcome identity by pointer, Run's result); " +
 			"non-trivial = root has dependencies; distinct = distinct (graph, limit, trace signature)")
